@@ -23,11 +23,18 @@ Unres(t) == t.k = "unresolved"
 RECURSIVE HasUnres(_)
 HasUnres(t) == Unres(t) \/ (\E j \in 1..Len(t.a) : HasUnres(t.a[j])) \/ (\E m \in t.u : HasUnres(m))
 
+\* the value holds, somewhere, a non-empty dict all of whose keys are strings (the only thing a TypedDict may come from)
+RECURSIVE HasRecord(_)
+HasRecord(v) == \/ (v.k = "dict" /\ Len(v.a) > 0 /\ \A j \in 1..Len(v.a) : v.a[j].a[1].k = "str")
+                \/ \E j \in 1..Len(v.a) : HasRecord(v.a[j])
+
 PosViol(p) ==
   LET ann == J2T(p.ann) IN
   IF ann.k = "absent" THEN {}
   ELSE IF HasUnres(ann) THEN {"AnnotationResolves"}
-  ELSE IF \A j \in 1..Len(p.vals) : Member(J2T(p.vals[j]), ann) THEN {} ELSE {"EndToEndSound"}
+  ELSE   (IF \A j \in 1..Len(p.vals) : Member(J2T(p.vals[j]), ann) THEN {} ELSE {"EndToEndSound"})
+         \* C06, end to end: a TypedDict in the annotation of a position needs a record among the values seen there
+    \cup (IF Len(p.vals) > 0 /\ AllTDs(ann) # {} /\ ~(\E j \in 1..Len(p.vals) : HasRecord(J2T(p.vals[j]))) THEN {"TypedDictOnlyFromRecords"} ELSE {})
 
 TDViol(r) ==
        (IF \E j \in 1..Len(r.tds) : (r.k = 0 \/ r.tds[j].nkeys > r.k \/ r.tds[j].nkeys < 1) THEN {"StubTDBound"} ELSE {})
